@@ -35,7 +35,9 @@ demo_tests=$(grep -ho 'func Test[A-Za-z0-9_]*' $(sed "s|^|$v/|" "$dst/demo_files
 echo "verified at base $base (the /repo commit the seeding agent worked on)" >> "$dst/verify.log"
 echo "summary: demo_without_rc=$rc0 build_rc=$rcb demo_with_rc=$rc1 package_tests_with_rc=$rct (packages: $pkgs)" | tee -a "$dst/verify.log"
 git -C /repo worktree remove --force "$v"
-# run the checks against the change
+# run the checks against the change. SEED_VIA_OVERLAY=1: leave /repo untouched (patched copies go
+# through VERIF_EXTRA_OVERLAY) - needed while background runs are reading /repo.
+if [ -n "${SEED_VIA_OVERLAY:-}" ]; then exec /verif/tools/seedov.sh "$name" "$@"; fi
 if [ -n "$(git -C /repo status --short)" ]; then echo "/repo not clean, not applying" ; exit 2; fi
 git -C /repo apply "$dst/patch.diff" || { echo "cannot apply to /repo"; exit 2; }
 : > "$dst/checks.log"
